@@ -4,6 +4,7 @@ import (
 	"crypto/sha256"
 	"encoding/json"
 	"fmt"
+	"github.com/remieven/ysgo/markup"
 	"math"
 	"os"
 	"os/exec"
@@ -193,6 +194,11 @@ func c09ExecOpts(scripts []string, seed string, choiceSeed uint64, hook func(ste
 		h.Write([]byte(line + "\n"))
 		if len(sum) < 12 {
 			sum = append(sum, line)
+		}
+		if eo.tag != "" {
+			// the element is the host's now: it may write into it (attribute properties are plain maps)
+			// without any other runner ever seeing that
+			scribble(o, eo.tag)
 		}
 		if o.Kind == mon.KEnd || o.Kind == mon.KPanic {
 			break
@@ -586,4 +592,19 @@ func c09Aux(args []string) int {
 // startSnapshot is a snapshot of the start node of a C18 program (its nodes are called N1, N2, …).
 func startSnapshot() *ysgo.Snapshot {
 	return &ysgo.Snapshot{CurrentNode: "N1", Variables: map[string]variable.Value{}, VisitedNodes: map[string]int{}}
+}
+
+// scribble writes a property of its own into every attribute of a returned element.
+func scribble(o mon.Obs, tag string) {
+	mark := func(as []markup.Attribute) {
+		for _, a := range as {
+			if a.Properties != nil {
+				a.Properties["scribbled-by-"+tag] = markup.Value{StringValue: tag, ValueType: markup.ValueTypeString}
+			}
+		}
+	}
+	mark(o.Attrs)
+	for _, x := range o.Opts {
+		mark(x.Attrs)
+	}
 }
